@@ -836,6 +836,12 @@ def val_confatomic(ctx: Ctx) -> RuleResult:
     for st in iter_own_nodes(f.node):
         if isinstance(st, (ast.Expr, ast.Assign)) and isinstance(st.value, ast.Call) and st.lineno < lp.lineno and _may_refuse(st.value):
             dup_before.append(st)
+    # the refusal written in the function itself, before the applying loop (`dups = find(..); if dups: raise ValueError(..)`)
+    for rs_ in [x for x in iter_own_nodes(f.node) if isinstance(x, ast.Raise) and not any(x is y for y in own_walk(lp))
+                and getattr(x, "lineno", 0) < getattr(lp, "lineno", 0)]:
+        conds_ = reach_conditions(f.node, rs_) or []
+        if any(isinstance(c_, (ast.Name, ast.Call, ast.Compare)) for c_, _ in conds_) and "ValueError" in norm_src(rs_):
+            dup_before.append(rs_)
     # the iterable of the applying loop is evaluated before its first iteration
     if isinstance(lp.iter, ast.Call) and _may_refuse(lp.iter):
         dup_before.append(lp.iter)
